@@ -1,7 +1,13 @@
-(** C06 (volume-splitting part) — with auto_split, a transfer volume v > 0 is emitted as exactly
-    max(1, ceil(v / max_volume)) steps, each with 0 < step <= max_volume, adding up to v.
-    Statements only; proofs live in Proofs/PartitionProofs.v. *)
-From Robo Require Import Prelude Partition PartitionProofs.
+(** C06 — with auto_split, a transfer volume v > 0 is emitted as exactly
+    max(1, ceil(v / max_volume)) steps, each with 0 < step <= max_volume, adding up to v (nothing for
+    v = 0), so an automatically split transfer is never refused for being too large; with auto_split
+    disabled a step above max_volume raises InvalidOperationError; a reagent distribution never plans
+    more multi-dispenses per aspiration than fit into max_volume.
+    Statements only; proofs live in Proofs/PartitionProofs.v (partition_volume) and
+    Proofs/PlanProofs.v (transfer level; the reagent_distribution part re-exports
+    Proofs/RecordsProofs.v). *)
+From Robo Require Import Prelude Str Wells Utils Labware Tips Records Partition Params Worklist
+  PartitionProofs LabwareProofs PlanProofs.
 
 Local Open Scope Q_scope.
 
@@ -34,4 +40,144 @@ Example C06_example :
   partition_volume (3 # 2) 950 = [3 # 2] /\
   partition_volume 950 950 = [950] /\
   partition_volume 0 950 = [].
+Proof. vm_compute. repeat split. Qed.
+
+(* ------------------------------------------------------------------ transfer level *)
+
+(** the (source, destination, volume) of the steps of a plan, in order *)
+Definition steps_of (acts : list action) : list triple :=
+  flat_map (fun a => match a with Step s d v => [(s, d, v)] | Commit => [] end) acts.
+
+Definition sd_eqb (s d : string) (t : triple) : bool :=
+  String.eqb (fst (fst t)) s && String.eqb (snd (fst t)) d.
+
+(** if the pair (s, d) is requested by exactly one triple (s, d, v), the planned steps of that pair
+    are, in order, [partition_volume v max_volume] ... *)
+Theorem C06_transfer_split : forall (m : Q) (mode : pmode) (triples : list triple) (s d : string) (v : Q),
+  0 < m -> 0 <= v ->
+  filter (sd_eqb s d) triples = [(s, d, v)] ->
+  map snd (filter (sd_eqb s d) (steps_of (plan true m mode triples))) = partition_volume v m.
+Proof. exact transfer_split. Qed.
+Print Assumptions C06_transfer_split.
+
+(** ... hence exactly max(1, ceil(v / max_volume)) pairs, each in (0, max_volume], adding up to v ... *)
+Theorem C06_transfer_split_spec : forall (m : Q) (mode : pmode) (triples : list triple) (s d : string) (v : Q),
+  0 < m -> 0 < v ->
+  filter (sd_eqb s d) triples = [(s, d, v)] ->
+  let l := map snd (filter (sd_eqb s d) (steps_of (plan true m mode triples))) in
+  Z.of_nat (length l) = Z.max 1 (Qceiling (v / m)) /\
+  Forall (fun x => 0 < x /\ x <= m) l /\
+  Qsum l == v.
+Proof. exact transfer_split_spec. Qed.
+Print Assumptions C06_transfer_split_spec.
+
+(** ... and nothing for v = 0 *)
+Theorem C06_transfer_zero : forall (m : Q) (mode : pmode) (triples : list triple) (s d : string) (v : Q),
+  0 < m -> v == 0 ->
+  filter (sd_eqb s d) triples = [(s, d, v)] ->
+  filter (sd_eqb s d) (steps_of (plan true m mode triples)) = [].
+Proof. exact transfer_split_zero. Qed.
+Print Assumptions C06_transfer_zero.
+
+(** with auto_split no planned step is above max_volume, so the volume check of the A/D records
+    never raises InvalidOperationError for it (and accepts it if max_volume is within the format) *)
+Theorem C06_never_refused : forall (m : Q) (mode : pmode) (triples : list triple) (s d : string) (v : Q),
+  0 < m -> In (Step s d v) (plan true m mode triples) ->
+  check_volume (PV (XQ v)) (Some m) <> Err EInvalidOp /\
+  (m <= max_tecan_volume -> check_volume (PV (XQ v)) (Some m) = Ok v).
+Proof. exact plan_never_refused. Qed.
+Print Assumptions C06_never_refused.
+
+(** without auto_split: an A or D record above max_volume raises InvalidOperationError (the rack label
+    and the position are checked first, everything else later) ... *)
+Theorem C06_no_split : forall (w : wstate) (a : adargs) (label : string) (pos : Z) (v : Q),
+  text_ok true (x_rack_label a) = Some label -> check_position (x_position a) = Ok pos ->
+  x_volume a = PV (XQ v) -> 0 <= v -> v <= max_tecan_volume -> w_max w < v ->
+  aspirate_well w a = (w, Some EInvalidOp) /\ dispense_well w a = (w, Some EInvalidOp).
+Proof. exact aspirate_well_too_large. Qed.
+Print Assumptions C06_no_split.
+
+(** ... the plan contains the unsplit volume ... *)
+Theorem C06_no_split_plan : forall (m : Q) (mode : pmode) (triples : list triple) (s d : string) (v : Q),
+  In (s, d, v) triples -> 0 < v -> In (Step s d v) (plan false m mode triples).
+Proof. exact plan_nosplit_contains. Qed.
+Print Assumptions C06_no_split_plan.
+
+Theorem C06_no_split_pair : forall (m : Q) (mode : pmode) (triples : list triple) (s d : string) (v : Q),
+  filter (sd_eqb s d) triples = [(s, d, v)] ->
+  filter (sd_eqb s d) (steps_of (plan false m mode triples)) = if Qltb 0 v then [(s, d, v)] else [].
+Proof. exact transfer_nosplit_pair. Qed.
+Print Assumptions C06_no_split_pair.
+
+(** ... and executing such a step raises InvalidOperationError once the source labware has accepted
+    the removal (the source labware is already charged, no record is written) *)
+Theorem C06_no_split_step : forall (s : state) (ks kd : nat) (sw dw : string) (v : Q) (ws : scheme)
+    (kw : kwargs) (L L' : labware) (pos : nat),
+  nth_error (st_lw s) ks = Some L ->
+  remove L (A1 [sw]) (A1 [XQ v]) None = (L', None) ->
+  device_position (w_dev (st_wl s)) (lw_geom L) sw = Ok pos ->
+  text_ok true (PStr (lw_name L)) = Some (lw_name L) ->
+  0 < v -> v <= max_tecan_volume -> w_max (st_wl s) < v ->
+  exec_step s ks kd sw dw v ws kw = (set_lw s ks L', Some EInvalidOp).
+Proof. exact exec_step_too_large. Qed.
+Print Assumptions C06_no_split_step.
+
+(** reagent_distribution: the multi-dispense count of the emitted R record times the volume fits
+    into max_volume; it is the requested count if that fits, otherwise floor(max_volume / volume),
+    the largest count that fits *)
+Theorem C06_multi_disp : forall (w : wstate) (a : rdargs) (w' : wstate),
+  reagent_distribution w a = (w', None) ->
+  exists f,
+    w_recs w' = (w_recs w ++ [RR f])%list /\
+    match rd_volume a with
+    | RVInt z => r_volume f = PyI z
+    | RVFloat x => exists q, x = XQ q /\ r_volume f = PyF q
+    | RVBad => False
+    end /\
+    0 <= pynum_q (r_volume f) /\ pynum_q (r_volume f) <= w_max w /\
+    inject_Z (r_multi_disp f) * pynum_q (r_volume f) <= w_max w /\
+    (inject_Z (rd_multi_disp a) * pynum_q (r_volume f) <= w_max w -> r_multi_disp f = rd_multi_disp a) /\
+    (w_max w < inject_Z (rd_multi_disp a) * pynum_q (r_volume f) ->
+       r_multi_disp f = Qfloor (w_max w / pynum_q (r_volume f)) /\
+       w_max w < inject_Z (r_multi_disp f + 1) * pynum_q (r_volume f)).
+Proof. exact reagent_distribution_multi. Qed.
+Print Assumptions C06_multi_disp.
+
+(** non-vacuity: 40 from A01 to A01 with max_volume 15 is planned as 14 + 14 + 12; without auto_split
+    the step of 40 is executed and refused *)
+Example C06_example_transfer :
+  let triples := [("A01", "A01", 40); ("A01", "B01", 10); ("A01", "A02", 5)]%string in
+  filter (sd_eqb "A01" "A01") triples = [("A01", "A01", 40)]%string /\
+  map snd (filter (sd_eqb "A01" "A01") (steps_of (plan true 15 ByDestination triples))) = [14; 14; 12] /\
+  partition_volume 40 15 = [14; 14; 12] /\
+  plan false 15 ByDestination triples
+  = [Step "A01" "A01" 40; Step "A01" "B01" 10; Step "A01" "A02" 5]%string.
+Proof. vm_compute. repeat split. Qed.
+
+Definition ex_state (mx : Q) (autosplit : bool) : state :=
+  {| st_lw := [ex_trough; ex_plate];
+     st_wl := {| w_recs := []; w_max := mx; w_autosplit := autosplit; w_diti := false; w_dev := Evo |} |}.
+
+Example C06_example_refused :
+  snd (transfer (ex_state 15 false) 0 (A0 "A01"%string) 1 (A1 ["A01"; "B01"; "A02"]%string)
+                (A1 [40; 10; 5]) None (SInt 1) "auto" kw_default) = Some EInvalidOp /\
+  snd (transfer (ex_state 15 true) 0 (A0 "A01"%string) 1 (A1 ["A01"; "B01"; "A02"]%string)
+                (A1 [40; 10; 5]) None (SInt 1) "auto" kw_default) = None /\
+  snd (exec_step (ex_state 15 false) 0 1 "A01" "A01" 40 (SInt 1) kw_default) = Some EInvalidOp /\
+  snd (remove ex_trough (A1 ["A01"]%string) (A1 [XQ 40]) None) = None /\
+  device_position Evo (lw_geom ex_trough) "A01" = Ok 1%nat /\
+  text_ok true (PStr (lw_name ex_trough)) = Some (lw_name ex_trough) /\
+  aspirate_well (st_wl (ex_state 15 false)) (ad_of_kw "trough" 1 40 kw_default)
+  = (st_wl (ex_state 15 false), Some EInvalidOp).
+Proof. vm_compute. repeat split. Qed.
+
+(** multi-dispense: 12 x 100 does not fit into 950, 9 x 100 does *)
+Example C06_example_multi :
+  let a := {| rd_src_label := PStr "src"; rd_src_start := PInt 1; rd_src_end := PInt 8;
+              rd_dst_label := PStr "dst"; rd_dst_start := PInt 1; rd_dst_end := PInt 96;
+              rd_volume := RVInt 100; rd_diti_reuse := 1; rd_multi_disp := 12; rd_exclude := None;
+              rd_liquid_class := PStr ""; rd_direction := "left_to_right";
+              rd_src_id := PStr ""; rd_src_type := PStr ""; rd_dst_id := PStr ""; rd_dst_type := PStr "" |}%string in
+  map render (w_recs (fst (reagent_distribution (st_wl (ex_state 950 true)) a)))
+  = ["R;src;;;1;8;dst;;;1;96;100;;1;9;0"]%string.
 Proof. vm_compute. repeat split. Qed.
